@@ -50,6 +50,8 @@ class Obligation:
     timeout_ms: int = 20000
     source: str = ''               # file:line span of the real code
     restricted: Optional[list] = None    # extra assumptions = the formal restriction of the known finding
+    vacuity: bool = True           # check that the assumptions are satisfiable (skipped for obligations that share
+                                   # their assumptions with an obligation that is checked)
     realizability: list = field(default_factory=list)   # true facts (UNIQUE constraints...) only added when
                                                         # the core query is satisfiable, to exclude models
                                                         # that no real database realises
@@ -150,14 +152,31 @@ def discharge(ob: Obligation, use_cvc5: bool = True, check_vacuity: bool = True)
     for a in relevant_axioms(ob):
         s.add(a)
     vac = None
-    if check_vacuity:
+    if check_vacuity and ob.vacuity:
         sv = z3.Solver()
         sv.set('timeout', 1500)
         for a in ob.assumptions:
             sv.add(a)
         vac = (sv.check() == z3.unsat)
     s.add(z3.Not(ob.goal))
-    r = s.check()
+    # portfolio of restarts: quantifier instantiation order makes identical queries take 30 ms or time out; short
+    # attempts with different seeds come first, the full budget last (verdicts sat/unsat are final whichever attempt)
+    r = z3.unknown
+    if ob.timeout_ms > 4000:
+        for seed in (0, 7, 23):
+            s.set('timeout', 2500)
+            s.set('random_seed', seed)
+            try:
+                s.set('smt.random_seed', seed)
+            except z3.Z3Exception:
+                pass
+            r = s.check()
+            if r != z3.unknown:
+                break
+        s.set('timeout', ob.timeout_ms)
+        s.set('random_seed', 0)
+    if r == z3.unknown:
+        r = s.check()
     ms = (time.time() - t0) * 1000
     if r == z3.unsat:
         return Result(ob, 'discharged', 'z3', ms, vacuous=vac)
@@ -186,6 +205,23 @@ def discharge(ob: Obligation, use_cvc5: bool = True, check_vacuity: bool = True)
             return Result(ob, 'refuted', 'cvc5', ms, solver_output='sat (cvc5; no model extracted)',
                           vacuous=vac)
     return Result(ob, 'unknown', 'z3', ms, solver_output=f'unknown: {reason}', vacuous=vac)
+
+
+def remote_result(ob: Obligation) -> dict:
+    """Discharge `ob` (and, when it is refuted and carries a known finding's restriction, the restricted
+    obligation) and return a picklable summary for Session.record_remote."""
+    res = discharge(ob)
+    d = {'name': ob.name, 'prop': ob.prop, 'kind': ob.kind, 'detail': ob.detail, 'functions': list(ob.functions),
+         'assumptions_used': list(ob.assumptions_used), 'source': ob.source, 'verdict': res.verdict,
+         'backend': res.backend, 'ms': res.ms, 'solver_output': res.solver_output, 'model': res.model,
+         'vacuous': res.vacuous, 'finding': ob.finding, 'restricted_verdict': None}
+    if res.verdict == 'refuted' and ob.finding and ob.restricted is not None:
+        r2 = discharge(Obligation(ob.name + ':restricted', ob.prop, ob.kind,
+                                  list(ob.assumptions) + list(ob.restricted), ob.goal, timeout_ms=ob.timeout_ms,
+                                  realizability=ob.realizability, vacuity=False))
+        d['restricted_verdict'] = r2.verdict if r2.verdict in ('discharged', 'refuted') else r2.solver_output
+        d['restricted_ms'] = r2.ms
+    return d
 
 
 # ---------------------------------------------------------------------------------------------
@@ -261,6 +297,41 @@ class Session:
         except z3.Z3Exception as exc:
             res = Result(ob, 'error', 'z3', 0.0, solver_output=f'z3 exception: {exc}')
         self.solver_ms += res.ms
+        self._account(res)
+        return res
+
+    def record(self, res: Result) -> Result:
+        """Account for an obligation that was discharged by the caller (vc.core.discharge)."""
+        self.functions.update(res.ob.functions)
+        self.assumptions.update(res.ob.assumptions_used)
+        self.solver_ms += res.ms
+        self._account(res)
+        return res
+
+    def record_remote(self, d: dict) -> Result:
+        """Account for an obligation discharged in a worker process (z3 terms do not cross processes):
+        d = remote_result(...) of that obligation."""
+        ob = Obligation(d['name'], d['prop'], d['kind'], detail=d['detail'], functions=tuple(d['functions']),
+                        assumptions_used=tuple(d['assumptions_used']), source=d['source'])
+        res = Result(ob, d['verdict'], d['backend'], d['ms'], model=d['model'], solver_output=d['solver_output'],
+                     vacuous=d['vacuous'])
+        self.functions.update(ob.functions)
+        self.assumptions.update(ob.assumptions_used)
+        self.solver_ms += d['ms'] + d.get('restricted_ms', 0.0)
+        fid = d.get('finding')
+        if res.verdict == 'refuted' and fid and fid in self.findings and self.findings[fid].get('status') == 'open':
+            rv = d.get('restricted_verdict')
+            if rv in (None, 'discharged'):
+                if rv == 'discharged':
+                    self.restricted_discharged += 1
+                if fid not in self.known_hits:
+                    self.known_hits.append(fid)
+                    print(self.findings[fid]['line'])
+                self.known_obligations.append(ob.name)
+                return res
+            if rv != 'refuted':
+                self.undecided.append(f'{ob.name}:restricted: {rv}')
+                return res
         self._account(res)
         return res
 
